@@ -331,7 +331,24 @@ def shard_src(meta, cases):
     return ("From Coq Require Import List ZArith Bool.\nImport ListNotations.\n"
             "Require Import C17.Generic C17.gen.Settings C17.Check.\n"
             "Definition cases : list (list (ev' * expect)) := [\n %s].\n"
-            "Eval vm_compute in (bad_cases cases 0).\n" % body)
+            "Eval vm_compute in (bad_cases cases 0).\n"
+            "Eval vm_compute in (bad_cases_spec cases 0).\n" % body)
+
+
+def parse_two_lists(out):
+    """the two `= [..] : list nat` answers of a shard: (model mismatches, reference-semantics mismatches)"""
+    import re
+    ms = re.findall(r"=\s*\[(.*?)\]\s*:\s*list", out, re.S)
+    if len(ms) != 2:
+        return None
+    res = []
+    for body in ms:
+        body = body.strip()
+        try:
+            res.append([int(x) for x in body.replace("\n", " ").split(";") if x.strip()] if body else [])
+        except ValueError:
+            return None
+    return res
 
 
 
@@ -565,22 +582,26 @@ def run(ctx):
     stride = max(1, len(dg) // (1600 if ctx.quick else 12000))
     chs = hs + dg[::stride]
     cases = [(h, real.run(h)) for h in chs]
+    for f in os.listdir(ctx.gen):                      # stale shards of earlier (wider) runs
+        if f.startswith("cases_c17_") and f.endswith(".v"):
+            os.remove(os.path.join(ctx.gen, f))
     shards = []
     SH = 400
     for i in range(0, len(cases), SH):
         shards.append(("c17_%d" % (i // SH), shard_src(meta, cases[i:i + SH])))
-    mism = []
+    mism, mism_spec = [], []
     if ok:
         res = {}
         for i in range(0, len(shards), 3):          # at most 3 coqc at a time
             res.update(common.run_shards(ctx, shards[i:i + 3]))
         for si, (name, _) in enumerate(shards):
             rc, out = res[name]
-            bad = common.parse_coq_list_of_nat(out) if rc == 0 else None
-            if bad is None:
+            two = parse_two_lists(out) if rc == 0 else None
+            if two is None:
                 ctx.violation({"kind": "shard-failed", "shard": name, "out": out[-500:]}, no_input=True)
                 continue
-            mism += [si * SH + b for b in bad]
+            mism += [si * SH + b for b in two[0]]
+            mism_spec += [si * SH + b for b in two[1]]
         for m in mism[:5]:
             h, o = cases[m]
             f = failure_of(meta, real, h, o)
@@ -590,6 +611,17 @@ def run(ctx):
             else:
                 ctx.violation({"kind": "model-implementation-disagreement", "history": h, "observed": o,
                                "correspondence": "coq/C17/Check.v agree (generated model vs real classes)"}, no_input=True)
+        for m in [x for x in mism_spec if x not in mism][:5]:
+            # the implementation agrees with the proven model but not with the Gallina reference semantics
+            h, o = cases[m]
+            f = failure_of(meta, real, h, o)
+            if f:
+                ctx.violation({"kind": "scoping-failure", "history": h, "observed": o, "what": f[2], "category": f[0]},
+                              key={"what": f[0]})
+            else:
+                ctx.violation({"kind": "reference-semantics-disagreement", "history": h, "observed": o,
+                               "correspondence": "coq/C17/Check.v agree_spec (Generic.srun vs real classes) although the Python "
+                                                 "reference harness/c17_spec.py accepts the run"}, no_input=True)
     allh = {json.dumps(h) for h in hs + dg}
     distinct = len({x for x in allh if x.count("[\"enter\"") + x.count("[\"exit") + x.count("[\"new\"") >= 4})
     nobs = sum(len(v) for v in meta["observers"].values())
@@ -609,7 +641,7 @@ def run(ctx):
                 "different classes; three objects nested in every order); after every event ALL %d observers of all %d classes are compared with the reference "
                 "specification; non-trivial = at least 4 events; distinct by event list"
                 % (6 if ctx.quick else 7, stride, 3 if ctx.quick else 4, nobs, len(meta["prim"])),
-        "exhaustive_histories": n_ex, "mismatches": len(mism), "direct_property_failures": direct,
+        "exhaustive_histories": n_ex, "mismatches": len(mism), "mismatches_reference_semantics": len(mism_spec), "direct_property_failures": direct,
         "direct_grid": len(dg), "direct_grid_families": fam, "correspondence_cases": len(cases),
         "observer_reads_direct": sum(len(h) for h in dg + hs) * nobs,
         "values_picked_by_seed": pick_values(ctx, meta, 14),
